@@ -137,9 +137,34 @@ fn trap_class(t: &Trap) -> String {
 
 /// Run `script` on `bytes`. Err = the module could not even be loaded.
 pub fn observe(bytes: &[u8], script: &[Call], host_seed: u64, probe_tables: bool) -> Result<Vec<Step>, String> {
+    observe_with(bytes, script, host_seed, probe_tables, None).map(|x| x.0)
+}
+
+/// as `observe`, with one function import replaced by a closed-form model;
+/// also returns how often the model was invoked
+pub fn observe_with(
+    bytes: &[u8],
+    script: &[Call],
+    host_seed: u64,
+    probe_tables: bool,
+    host_override: Option<(u32, Vec<RModel>)>,
+) -> Result<(Vec<Step>, u64), String> {
     let m = load(bytes).map_err(|e| e.to_string())?;
+    let mut calls = 0u64;
+    let r = observe_inner(&m, script, host_seed, probe_tables, host_override, &mut calls)?;
+    Ok((r, calls))
+}
+
+fn observe_inner(
+    m: &Module,
+    script: &[Call],
+    host_seed: u64,
+    probe_tables: bool,
+    host_override: Option<(u32, Vec<RModel>)>,
+    override_calls: &mut u64,
+) -> Result<Vec<Step>, String> {
     let mut steps = Vec::new();
-    let mut inst = match Instance::instantiate(&m, host_seed, FUEL_PER_CALL) {
+    let mut inst = match Instance::instantiate_with(m, host_seed, FUEL_PER_CALL, host_override) {
         Ok(i) => i,
         Err(t) => {
             steps.push(Step {
@@ -195,9 +220,11 @@ pub fn observe(bytes: &[u8], script: &[Call], host_seed: u64, probe_tables: bool
         };
         let what = format!("call {}({})", c.export, c.args.iter().map(|a| a.observable()).collect::<Vec<_>>().join(", "));
         if !run_call(&mut inst, what, f, c.args.clone(), &mut steps) {
+            *override_calls = inst.override_calls;
             return Ok(steps);
         }
     }
+    *override_calls = inst.override_calls;
     if probe_tables {
         // call what the visible tables hold (function references are compared by behaviour)
         let mut targets: Vec<(String, u32)> = Vec::new();
@@ -227,10 +254,12 @@ pub fn observe(bytes: &[u8], script: &[Call], host_seed: u64, probe_tables: bool
                 None => continue,
             };
             if !run_call(&mut inst, format!("call-ref {}", label), f, args, &mut steps) {
+                *override_calls = inst.override_calls;
                 return Ok(steps);
             }
         }
     }
+    *override_calls = inst.override_calls;
     Ok(steps)
 }
 
